@@ -395,3 +395,48 @@ def walk_ctx(node, anc=None):
             if isinstance(v, (dict, list)):
                 for x in walk_ctx(v, anc):
                     yield x
+
+
+def param_index(body_hir):
+    """local id -> position of the parameter whose pattern binds it (0 = first parameter, usually self)."""
+    out = {}
+    for i, p in enumerate(body_hir.get("params", [])):
+        for n in walk(p):
+            if n.get("k") == "bind":
+                out[n["local"]] = i
+    return out
+
+
+def param_roots(body_hir, ld, e, depth=0, pidx=None):
+    """Positions of the parameters an expression is computed from, following let-initialisers and, for bindings
+    of a `match` on a tuple expression, only the scrutinee element the binding's pattern position belongs to.
+    Independent of the names of locals and parameters."""
+    if pidx is None:
+        pidx = param_index(body_hir)
+    out = set()
+    if depth > 30 or not isinstance(e, (dict, list)):
+        return out
+    for n in walk(e):
+        if n.get("k") != "path" or res_local(n) is None:
+            continue
+        l = res_local(n)
+        if l in pidx:
+            out.add(pidx[l])
+            continue
+        d = ld.get(l)
+        if d is None or d[1] is None:
+            continue
+        pat, init, path = d
+        if path and path[0] == "arm":
+            sc = strip(init)
+            if sc.get("k") == "tup" and len(path) > 1 and isinstance(path[1], int) and path[1] < len(sc["elems"]):
+                out |= param_roots(body_hir, ld, sc["elems"][path[1]], depth + 1, pidx)
+            else:
+                out |= param_roots(body_hir, ld, init, depth + 1, pidx)
+        else:
+            ini = strip(init)
+            if ini.get("k") == "tup" and path and isinstance(path[0], int) and path[0] < len(ini["elems"]):
+                out |= param_roots(body_hir, ld, ini["elems"][path[0]], depth + 1, pidx)
+            else:
+                out |= param_roots(body_hir, ld, init, depth + 1, pidx)
+    return out
